@@ -218,12 +218,21 @@ def run(shard: dict, ctx) -> None:
         n_lines = rng.choice((0, 1, 1, 2, 3, 8, 20, 60))
         base = p1_gen.strict_readout(rng, None, n_lines)
         variants_of(base, rng, ctx, exhaustive_flips=(i % 6 == 0 and n_lines <= 1))
+        from vf.props import c05 as c05mod
+
+        c05mod.twin(rng, ctx, "C04")  # correctly check-summed readouts through two reader objects used alternately
         if i < 1:
             ctx.sample({"base": base.decode(), "variants": ["correct", "lower", "no_checksum", "0000", "0001", "FFFF", "+1", "-1", "one bit", "random", "bit flips"]})
 
 
 def replay(case: dict, ctx) -> None:
     import random
+
+    if case.get("twin"):
+        from vf.props import c05 as c05mod
+
+        c05mod.replay(case, ctx)
+        return
 
     check_variant(case["readout"], case.get("expect_valid"), ctx, random.Random(0), case.get("label", "replay"))
 
